@@ -1390,9 +1390,10 @@ fn main() {
     let snap_tracked = Counter::new();
     let snap_ignored = Counter::new();
 
-    // One pool of work items for everything: a (configuration, layout) pair of arrangement top
-    // (one git process), a configuration of arrangement sub (long-lived process), a snapshot of
-    // route 2. The expensive top items are spread evenly over the list.
+    // Work items: a (configuration, layout) pair of arrangement top (one git process), a
+    // configuration of arrangement sub (long-lived process), a snapshot of route 2. The three
+    // kinds run one after the other (mixing them was measurably slower: they contend on the
+    // scratch file system), each kind in parallel over all families.
     enum Work<'a> {
         Top { fam: usize, ci: usize, cfg: &'a Config, li: usize },
         Sub { fam: usize, ci: usize, cfg: &'a Config },
@@ -1400,6 +1401,7 @@ fn main() {
     }
     let mut slow: Vec<Work> = vec![];
     let mut fast: Vec<Work> = vec![];
+    let mut snaps: Vec<Work> = vec![];
     for (fam, (_, cfgs)) in fams.iter().enumerate() {
         for (ci, cfg) in cfgs.iter().enumerate() {
             if cfg.sub {
@@ -1414,30 +1416,19 @@ fn main() {
     for cfg in &snap_cfgs {
         let l1 = if cfg.nested.is_some() { L1N } else { L1 };
         for li in [l1, L2, L3] {
-            fast.push(Work::Snap { cfg, li });
+            snaps.push(Work::Snap { cfg, li });
         }
     }
-    let stride = (fast.len() / slow.len().max(1)).max(1);
-    let mut items: Vec<Work> = Vec::with_capacity(slow.len() + fast.len());
-    let mut slow_it = slow.into_iter();
-    for (i, w) in fast.into_iter().enumerate() {
-        if i % stride == 0
-            && let Some(s) = slow_it.next()
-        {
-            items.push(s);
-        }
-        items.push(w);
-    }
-    items.extend(slow_it);
     // per configuration of arrangement top: bit 1 = some path ignored, bit 2 = a negation decided
     let top_flags: Vec<Vec<std::sync::atomic::AtomicU8>> = fams
         .iter()
         .map(|(_, cfgs)| cfgs.iter().map(|_| std::sync::atomic::AtomicU8::new(0)).collect())
         .collect();
     let new_tallies = || -> Vec<Tally> { fams.iter().map(|_| Tally::default()).collect() };
-    let mut fam_tallies: Vec<Tally> = items
+    let process = |items: &[Work], max_len: usize| -> Vec<Tally> {
+        items
         .par_iter()
-        .with_max_len(32)
+        .with_max_len(max_len)
         .fold(new_tallies, |mut tallies, work| {
             let mut found: Vec<Mismatch> = vec![];
             match work {
@@ -1496,7 +1487,20 @@ fn main() {
                 x.merge(y);
             }
             a
-        });
+        })
+    };
+    let mut fam_tallies = new_tallies();
+    for (what, items, max_len) in [("arrangement top", &slow, 1), ("arrangement sub", &fast, 32), ("snapshot route", &snaps, 8)] {
+        for (x, y) in fam_tallies.iter_mut().zip(process(items, max_len)) {
+            x.merge(y);
+        }
+        eprintln!(
+            "[C28] {what}: {} work items done, {:.1}s (git wait summed over threads {:.1}s)",
+            items.len(),
+            ctx.elapsed_s(),
+            GIT_NANOS.load(std::sync::atomic::Ordering::Relaxed) as f64 / 1e9
+        );
+    }
     for e in &envs {
         e.lock().unwrap().shutdown();
     }
